@@ -339,7 +339,28 @@ func (r *RCase) buildOracles() {
 	}
 }
 
+// a Go map holds one value per key: of several generated entries with one key the last one is the map's
+// (this happens when the result set repeats a column name); the case records the map as the library saw it
+func dedupKVs(m []KV) []KV {
+	out := []KV{}
+	for i, kv := range m {
+		last := true
+		for _, later := range m[i+1:] {
+			if later.K == kv.K {
+				last = false
+			}
+		}
+		if last {
+			out = append(out, kv)
+		}
+	}
+	return out
+}
+
 func RunR(r *RCase) {
+	if r.Handler.Kind == "map" {
+		r.Handler.M = dedupKVs(r.Handler.M)
+	}
 	r.buildOracles()
 	mem := &MemDB{Quote: '"', Result: &r.RS}
 	db := OpenMem(mem)
